@@ -49,6 +49,31 @@ func parseInts(s string) []int {
 	return out
 }
 
+// The error a failing callback returns. Its text is always "cb"; its identity varies with the call, because the driver
+// must return whatever error a callback gives it: a plain error, one that wraps io.EOF (the lexer's end-of-input signal),
+// one that wraps io.ErrUnexpectedEOF, and one that claims to be every error (errors.Is is true for any target).
+type wrapErr struct{ inner error }
+
+func (e *wrapErr) Error() string { return "cb" }
+func (e *wrapErr) Unwrap() error { return e.inner }
+
+type anyErr struct{}
+
+func (anyErr) Error() string        { return "cb" }
+func (anyErr) Is(target error) bool { return true }
+
+func cbError(k int) error {
+	switch k % 4 {
+	case 1:
+		return &wrapErr{io.EOF}
+	case 2:
+		return anyErr{}
+	case 3:
+		return &wrapErr{io.ErrUnexpectedEOF}
+	}
+	return errors.New("cb")
+}
+
 func runParse(p *parser.Parser, failAt int) string {
 	var b strings.Builder
 	calls, ntok := 0, 0
@@ -58,7 +83,7 @@ func runParse(p *parser.Parser, failAt int) string {
 			ntok++
 			calls++
 			if calls-1 == failAt {
-				return errors.New("cb")
+				return cbError(failAt + ntok)
 			}
 			return nil
 		},
@@ -66,7 +91,7 @@ func runParse(p *parser.Parser, failAt int) string {
 			fmt.Fprintf(&b, "P%d ", i)
 			calls++
 			if calls-1 == failAt {
-				return errors.New("cb")
+				return cbError(failAt + ntok)
 			}
 			return nil
 		},
@@ -168,7 +193,7 @@ func cmdLrEval(f []string) string {
 	v, err := p.ParseAndEvaluate(func(i int, rhs []*lr.Value) (any, error) {
 		calls++
 		if calls-1 == failAt {
-			return nil, errors.New("cb")
+			return nil, cbError(failAt)
 		}
 		var b strings.Builder
 		fmt.Fprintf(&b, "(%d", i)
